@@ -200,3 +200,35 @@ def operation_consistent_with_flags_and_temperatures(has_h: bool, has_c: bool, h
     ensures("operation-is-one-of-three", h.current_operation in ("Heating", "Cooling", "Idle"))
     cover("both-flags", both(has_h, has_c))
     cover("no-flags-heating-by-temperature", both(not has_h, not has_c, cur < real))
+
+
+# ------------------------------------------- the heating / cooling flags as the tables declare them
+from geckolib.automation.sensors import GeckoBinarySensor
+from contracts.c02_accessor import build as build_accessor, spec_length as flag_length, RecStruct as FlagStruct
+
+
+class FlagFacade:
+    unique_id = "SPA"
+    name = "spa"
+    _spa = None
+
+
+@harness(prop="C14", cases="c14_flag_shapes", target="geckolib.automation.sensors:GeckoBinarySensor.is_on")
+def operation_follows_the_flag_item_as_declared(shape, pos: int, block: bytes, cur: float, real: float):
+    """the real binary sensor over every shape the Heating / CoolingDown items have in the shipped tables:
+    any label other than '' / 'OFF' (or a true Bool) means the flag is on, and then the operation is the flag's"""
+    requires(len(block) == 1024)
+    requires(both(0 <= pos, pos + flag_length(shape) <= 1024))
+    a = build_accessor(shape, FlagStruct(block), pos)
+    s = GeckoBinarySensor(FlagFacade(), "Heating", a)
+    v = a.value
+    if shape["cls"] == "GeckoBoolStructAccessor":
+        want = v
+    else:
+        want = both(v != "", v != "OFF")
+    ensures("flag-is-on-iff-its-item-says-so", s.is_on == want)
+    h = heater("C", cur, real, s, None)
+    ensures("heating-flag-on-means-heating", implies(want, h.current_operation == "Heating"))
+    h2 = heater("C", cur, real, None, s)
+    ensures("cooling-flag-on-means-cooling", implies(want, h2.current_operation == "Cooling"))
+    cover("reached-end", True)
